@@ -210,12 +210,13 @@ PairsSet(seq) == {<<seq[i][1], seq[i][2]>> : i \in 1..Len(seq)}
 StatsFails(r, S) ==
     LET D == Derive(S) IN
     IF ~WellFormed(S, D) THEN {} ELSE
-    (IF \A i \in 1..NClasses : r.kfree[i] = <<Classes[i], FreeCountsD(D.kfl)[i]>> THEN {} ELSE {"C17.free"})
-    \cup (IF \A i \in 1..NClasses : r.vfree[i] = <<Classes[i], FreeCountsD(D.vfl)[i]>> THEN {} ELSE {"C17.free"})
-    \cup (IF PairsSet(r.ksize) = LiveKeySizeHistD(S, D) THEN {} ELSE {"C17.keysize"})
-    \cup (IF PairsSet(r.vsize) = LiveValSizeHistD(S, D) THEN {} ELSE {"C17.valsize"})
-    \cup (IF PairsSet(r.klen) = LiveKeyLenHistD(S, D) THEN {} ELSE {"C17.keylen"})
-    \cup (IF PairsSet(r.vlen) = LiveValLenHistD(S, D) THEN {} ELSE {"C17.vallen"})
+    \* (a single statistics call logs only its own figure)
+    (IF ~Has(r, "kfree") \/ \A i \in 1..NClasses : r.kfree[i] = <<Classes[i], FreeCountsD(D.kfl)[i]>> THEN {} ELSE {"C17.free"})
+    \cup (IF ~Has(r, "vfree") \/ \A i \in 1..NClasses : r.vfree[i] = <<Classes[i], FreeCountsD(D.vfl)[i]>> THEN {} ELSE {"C17.free"})
+    \cup (IF ~Has(r, "ksize") \/ PairsSet(r.ksize) = LiveKeySizeHistD(S, D) THEN {} ELSE {"C17.keysize"})
+    \cup (IF ~Has(r, "vsize") \/ PairsSet(r.vsize) = LiveValSizeHistD(S, D) THEN {} ELSE {"C17.valsize"})
+    \cup (IF ~Has(r, "klen") \/ PairsSet(r.klen) = LiveKeyLenHistD(S, D) THEN {} ELSE {"C17.keylen"})
+    \cup (IF ~Has(r, "vlen") \/ PairsSet(r.vlen) = LiveValLenHistD(S, D) THEN {} ELSE {"C17.vallen"})
     \cup (IF ~Has(r, "filling") \/ r.filling = Filling(S) THEN {} ELSE {"C17.filling"})
 \* the same figures from the contract alone (no decoded state needed): length histograms of
 \* the live keys / values and the number of occupied buckets
@@ -226,8 +227,8 @@ ModelValHist(mm) == LET L == {TrVLen[mm[k]] : k \in DOMAIN mm} \ {0} IN
 StatsModelFails(r, m) ==
     IF ~Known(m) THEN {} ELSE
     LET mm == mem[m] IN
-    (IF PairsSet(r.klen) = ModelHist(DOMAIN mm, TrKLen) THEN {} ELSE {"C17.keylen"})
-    \cup (IF PairsSet(r.vlen) = ModelValHist(mm) THEN {} ELSE {"C17.vallen"})
+    (IF ~Has(r, "klen") \/ PairsSet(r.klen) = ModelHist(DOMAIN mm, TrKLen) THEN {} ELSE {"C17.keylen"})
+    \cup (IF ~Has(r, "vlen") \/ PairsSet(r.vlen) = ModelValHist(mm) THEN {} ELSE {"C17.vallen"})
     \cup (IF ~Has(r, "filling") \/ ~(m \in DOMAIN meta) THEN {} ELSE
           LET nb == Cardinality({TrKH[k] % meta[m].n : k \in DOMAIN mm}) IN
           IF r.filling = <<nb, (nb * 1000) \div meta[m].n>> THEN {} ELSE {"C17.filling"})
